@@ -1081,6 +1081,16 @@ func (a *art) runLoadDir(mu Mut) (string, string) {
 	if c2, d2 := a.containment(tag); c == "" && c2 != "" {
 		c, d = c2, d2
 	}
+	if c == "" && strings.HasPrefix(mu.Kind, "frag_") && mustErr {
+		// the stand-alone integrity check of a collection directory must notice the same damage
+		if m, err := retriever.ReadManifest(dir); err == nil {
+			if verr := retriever.VerifyManifestFiles(dir, m); verr == nil {
+				c, d = "oracle:tamper_accepted", tag+": VerifyManifestFiles returned nil for a collection with a damaged fragment"
+			} else {
+				a.counters["verifymanifestfiles_rejected"]++
+			}
+		}
+	}
 	a.hashes = append(a.hashes, hash64(tag))
 	return c, d
 }
@@ -1368,7 +1378,17 @@ func (a *art) runStream(mu Mut) (string, string) {
 		out := a.fresh("direct")
 		simos.Reset(a.plan())
 		var err error
-		if c, d := a.sim(tag, func() { err = retriever.UnpackEncryptedCollectionArchive(reader(data, failAfter), out, key) }); c != "" {
+		if failAfter < 0 && mu.C%3 == 0 {
+			// the same consumer reading the archive from a file
+			ap := filepath.Join(a.allowed, "incoming.archive")
+			os.WriteFile(ap, data, 0o600)
+			defer os.Remove(ap)
+			tag += " (from file)"
+			a.counters["unpack_archive_from_file"]++
+			if c, d := a.sim(tag, func() { err = retriever.UnpackEncryptedCollectionArchiveFile(ap, out, false, key) }); c != "" {
+				return c, d
+			}
+		} else if c, d := a.sim(tag, func() { err = retriever.UnpackEncryptedCollectionArchive(reader(data, failAfter), out, key) }); c != "" {
 			return c, d
 		}
 		if c, d := a.containment(tag); c != "" {
